@@ -529,11 +529,11 @@ func main() {
 		"(17% deliberately ill-kinded, including real/imag/complex of strings, booleans, complex(1, 2i), and % & | ^ on real()/imag() results) plus an enumerated list of unparenthesised chains and builtin calls; "+
 		"each tree evaluated (1) by gomacro with OptKeepUntyped, (2) by the exact math/big reference evaluator, (3) by go/types types.Eval; every accepted value is then used in typed contexts "+
 		"`var x T = e` and `T(e)` for T over the 17 basic kinds (3 targets per value, biased to the value's neighbourhood) judged by go/types (accept/reject) and one batched compiled-Go program (values, float bit patterns), "+
-		"and in `var b *big.Int|*big.Rat|*big.Float = e` judged against math/big built from the exact value; corpus/C04/*.json replayed first. "+
+		"and in `var b *big.Int|*big.Rat|*big.Float = e` judged against math/big built from the exact value; corpus/C04/*.json replayed first (untyped, typed and *big.T contexts). "+
 		"Shift counts up to 1100 (bound 1074 as go/types); a tree with an intermediate value of >= 4000 bits is judged by go/types instead of exact arithmetic (go/constant rounds to 512 bits there, as the spec allows); the model comparison skips values outside go/constant's exact big.Rat range for the model comparison. "+
 		"A case is non-trivial when it contains >=1 operator and is accepted; distinct by SHA-256 of the source text")
 	newInterp()
-	wd := vh.NewWatchdog(rep, 60*time.Second)
+	wd := vh.NewWatchdog(rep, 15*time.Minute) // generous: the last beat before the typed phase also covers the `go build` of the compiled-Go oracle batch (minutes on a loaded machine)
 
 	nTrees, depth := 1200, 4
 	if a.Thorough() {
@@ -544,7 +544,10 @@ func main() {
 	}
 
 	header := "From Coq Require Import List NArith ZArith QArith.\nFrom Verif Require Import C04.Model.\nImport ListNotations.\nOpen Scope Z_scope."
-	cw := vh.NewCases(a, header, "case", "mismatches", 400)
+	cw := vh.NewCases(a, header, "case", "mismatches", 320)
+	// correspondence volume: every case in the quick tier; 1 in 12 in the thorough tier (25x the trees, 110 000 candidate cases), i.e. about
+	// 9 000 cases = 29 shards of about 20 s of coqc instead of 350 (the direct oracles judge every case in both tiers)
+	coqKeep := func(i int) bool { return !a.Thorough() || i%12 == 0 }
 	idx := 0
 	var typed []*tcase
 	type bigcase struct {
@@ -554,8 +557,19 @@ func main() {
 		kind string
 	}
 	var bigs []bigcase
+	nCorpusBigs := 0
+	// finding C04-10 (corpus: var b *big.Float = 0x1p-1076 gives 0): while its corpus input still fails the generated
+	// *big.Float contexts with a non-zero dyadic value below 2^-1075 are not judged (class avoided, counted in the distribution)
+	tinyBigFloatOpen := false
+	tinyBound := new(big.Rat).SetFrac(big.NewInt(1), new(big.Int).Lsh(big.NewInt(1), 1075))
+	tinyDyadic := func(q *big.Rat) bool { // 0 < |q| < 2^-1075 with a power of two as denominator
+		den := q.Denom()
+		return q.Sign() != 0 && new(big.Rat).Abs(q).Cmp(tinyBound) < 0 && new(big.Int).And(den, new(big.Int).Sub(den, big.NewInt(1))).Sign() == 0
+	}
 
+	nFails := 0
 	fail := func(key, what string, input, got, want interface{}) {
+		nFails++
 		rep.Dist("FAIL:" + what)
 		rep.Fail(vh.Failure{Key: key, What: what, Input: input, Got: got, Want: want})
 	}
@@ -588,6 +602,13 @@ func main() {
 		switch e.Ctx {
 		case "untyped":
 			checkUntypedSrc(rep, e.Src, "corpus")
+		case "big":
+			// `var b *big.Int|*big.Rat|*big.Float = src`: the exact value comes from go/types
+			if v := checkUntypedSrc(rep, e.Src, "corpus"); v != nil {
+				bigs = append(bigs, bigcase{idx, e.Src, v, e.Type})
+				idx++
+				nCorpusBigs++
+			}
 		default:
 			typed = append(typed, &tcase{Idx: idx, Src: e.Src, Ctx: e.Ctx, Type: e.Type})
 			idx++
@@ -672,7 +693,7 @@ func main() {
 					obs = "(Some " + coqLit(got, reprKind(lit.Val)) + ")"
 				}
 			}
-			if obs != "" && treeSmall(n) {
+			if obs != "" && treeSmall(n) && coqKeep(idx) {
 				cw.Add(fmt.Sprintf("CEval %d %s %s", idx, coqExpr(n), obs))
 				rep.CaseInput(idx, map[string]string{"untyped": src})
 			}
@@ -719,16 +740,21 @@ func main() {
 			rep.Dist("typed_result:go_accepts")
 		}
 		// (M) model case: the untyped literal as gomacro holds it, the target, gomacro's observation
-		if t.lit != nil && t.val != nil && t.val.small() && exactRepr(t.lit.Val) {
+		if t.lit != nil && t.val != nil && t.val.small() && exactRepr(t.lit.Val) && coqKeep(t.Idx) {
 			cw.Add(fmt.Sprintf("CConv %d %s %s %s %s", t.Idx, coqLit(t.val, reprKind(t.lit.Val)), tkCoq[t.Type], vh.CoqBool(t.Ctx == "conv"), coqTyped(t.gmOK, t.gmCanon)))
 			rep.CaseInput(t.Idx, t)
 		}
 	}
 
 	// ---- math/big contexts
-	for _, b := range bigs {
+	for bi, b := range bigs {
 		src := fmt.Sprintf("(func() %s { var b %s = %s; return b })()", b.kind, b.kind, b.src)
 		wd.Beat(src)
+		if tinyBigFloatOpen && bi >= nCorpusBigs && b.kind == "*big.Float" && tinyDyadic(b.val.Re) {
+			rep.Dist("avoided:bigfloat_dyadic_below_2^-1075(finding C04-10 open)")
+			continue
+		}
+		nFailBefore := nFails
 		var raw interface{}
 		var ok bool
 		var msg string
@@ -791,10 +817,13 @@ func main() {
 				rep.Dist("bigfloat:rounded")
 			}
 		}
-		if obs != "" && b.val.small() {
+		if obs != "" && b.val.small() && coqKeep(b.idx) {
 			bk := map[string]string{"*big.Int": "BInt", "*big.Rat": "BRat", "*big.Float": "BFloat"}[b.kind]
 			cw.Add(fmt.Sprintf("CBig %d %s %s %s", b.idx, coqLit(b.val, reprOfKind(b.val.K)), bk, obs))
 			rep.CaseInput(b.idx, src)
+		}
+		if bi < nCorpusBigs && nFails > nFailBefore && b.kind == "*big.Float" && tinyDyadic(b.val.Re) {
+			tinyBigFloatOpen = true
 		}
 	}
 	cw.Close()
